@@ -254,3 +254,46 @@ def shape_report(run, pid, which, found_concrete):
                     "offending": bad, "generated": open(os.path.join(GEN, "Gen_Pool.v")).read()[-3000:]},
                    "%s: the structure of %s in engine/gengine_pool.go is no longer the one the theorems are proved for, and no failing history was found" % (pid, ", ".join(bad)), no_input=True)
     return bad
+
+
+def random_walk_scenario(sid, mn, mx, rng, steps=14, faulty=False, model=None):
+    """A random walk over pool states: start a request held inside its first rule (while fewer than max are held), release
+    a random held one, or run a request to completion; a snapshot after every action. Covers arrival orders in which
+    instances are handed back before / while others are taken (histories, not just one overlap pattern)."""
+    kinds = {}
+    if faulty:
+        kinds = {"pb": rng.choice(["fail", "panic"]), "pc": rng.choice(["fail", "panic", "ret"])}
+    rules = rules_v(1, kinds=kinds)
+    names = [r["name"] for r in rules]
+    sc = {"id": sid, "min": mn, "max": mx, "model": model or rng.choice([1, 2, 3, 4]), "rules": rules, "steps": []}
+    rid = sid * 1000
+    held, done = [], []
+    for _ in range(steps):
+        x = rng.random()
+        if held and (x < 0.35 or len(held) == mx):
+            q = held.pop(rng.randrange(len(held)))
+            sc["steps"].append({"op": "release", "id": q})
+            done.append(q)
+        elif x < 0.55:
+            rid += 1
+            sc["steps"].append(req_step(rid, rng.choice(METHODS), names))
+            done.append(rid)
+        else:
+            rid += 1
+            sc["steps"].append(req_step(rid, rng.choice(METHODS), names, hold_at="*"))
+            held.append(rid)
+        sc["steps"].append({"op": "snapshot", "probe": names, "_active": list(held), "_done": list(done)})
+    for q in list(held):
+        sc["steps"].append({"op": "release", "id": q})
+        done.append(q)
+    sc["steps"].append({"op": "snapshot", "probe": names, "_active": [], "_done": list(done)})
+    # finally the pool must still serve max simultaneous requests
+    last = []
+    for _ in range(mx):
+        rid += 1
+        sc["steps"].append(req_step(rid, "Execute", names, hold_at="*"))
+        last.append(rid)
+    sc["steps"].append({"op": "snapshot", "probe": names, "_active": list(last), "_done": list(done)})
+    for q in last:
+        sc["steps"].append({"op": "release", "id": q})
+    return sc
